@@ -459,6 +459,53 @@ func runC07(c *Ctx) error {
 			c.count(tag, true, "ending=eof", "parallel=true")
 		}
 	}
+	// a local close racing with a transport error: goroutine A is inside WriteClose (between taking the connection's
+	// closed flag and recording why - the window is widened by a very long reason, which is legal: it is cut to 123 bytes
+	// on the wire) while the read loop meets the end of the stream.  Whoever wins, OnClose gets a non-nil error, once.
+	{
+		attempts, reasonLen := 6, 48<<20
+		if !c.quick() {
+			attempts = 40
+		}
+		reason := make([]byte, reasonLen)
+		for i := range reason {
+			reason[i] = 'r'
+		}
+		for a := 0; a < attempts; a++ {
+			server := a%2 == 0
+			h := &recHandler{}
+			conn, tap, err := connSpec{Server: server}.open(h)
+			if err != nil {
+				return err
+			}
+			tag := fmt.Sprintf("local close racing a transport error role=%s attempt=%d", roleName(server), a)
+			rl := make(chan struct{})
+			go func() { conn.ReadLoop(); close(rl) }()
+			wc := make(chan struct{})
+			go func() { _ = conn.WriteClose(1000, reason); close(wc) }()
+			time.Sleep(time.Duration(500+700*(a/2)) * time.Microsecond)
+			tap.setEOF()
+			select {
+			case <-rl:
+			case <-time.After(10 * time.Second):
+				c.oracleFail("ReadLoop did not return ["+tag+"]", "readloop-hang", map[string]any{"tag": tag})
+			}
+			<-wc
+			var closes []evRec
+			for _, e := range h.events() {
+				if e.Kind == "close" {
+					closes = append(closes, e)
+				}
+			}
+			switch {
+			case len(closes) != 1:
+				c.oracleFail(fmt.Sprintf("OnClose delivered %d times [%s]", len(closes), tag), "close-count", map[string]any{"tag": tag})
+			case closes[0].Err == nil:
+				c.oracleFail("OnClose received a nil error ["+tag+"]", "close-nil-error", map[string]any{"tag": tag})
+			}
+			c.count(tag, true, "ending=close-race")
+		}
+	}
 	// goroutines started by parallel handling must all have finished
 	var wg sync.WaitGroup
 	wg.Wait()
